@@ -379,6 +379,8 @@ pub fn run(tier: Tier, seed: u64) -> i32 {
         exhaustive_note: "all signal lists x headers x menu programs within the bounds".into(),
         e1: false,
     };
+    let mut st = st;
+    st.merge(crate::props::c14::cloned_signal_list_part(&deadline));
     finish(meta, st, started)
 }
 
